@@ -6,8 +6,8 @@ CONSTANTS
   PlainKinds <- Plain_All
   MaxDeps = 0
   ViaSet <- Vias_Get
-  MaxOps = 7
-  MaxRegs = 7
+  MaxOps = 5
+  MaxRegs = 5
   MaxDepth = 2
   SymClasses <- Sym_None
   Gen = TRUE
